@@ -31,6 +31,7 @@ var intrinsicNotes = map[string]string{
 	"strconv.Itoa":       "native: strconv.Itoa on concrete values only",
 	"strconv.Atoi":       "native: strconv.Atoi on concrete values only",
 	"fmt.Sprintf":        "native: fmt.Sprintf on concrete arguments; with a symbolic argument only the literal prefix of the format is kept",
+	"strings.Builder":    "model: strings.Builder's methods are interpreted from their real SSA (buf grows by append, growth counted as an allocation-site event) except copyCheck (no-op: the self-pointer trick needs unsafe) and String (the bytes of buf, no allocation, as in the real implementation)",
 	"http.Header":        "model: net/http.Header.{Add,Set,Get,Del,Values} over the map representation, keys canonicalised natively",
 	"sync.RWMutex":       "model: sync.RWMutex/Mutex as a lock-state object (no blocking, no scheduler)",
 	"idna":               "native: golang.org/x/net/idna profile construction and ToASCII run natively on concrete hosts",
@@ -61,6 +62,8 @@ func init() {
 		"(net/http.Header).Values":               iHeaderValues,
 		"net/http.CanonicalHeaderKey":            iCanonicalKey,
 		"net/textproto.CanonicalMIMEHeaderKey":   iCanonicalKey,
+		"(*strings.Builder).copyCheck":           func(w *W, fn *ssa.Function, a []Value, p token.Pos) Value { w.use("strings.Builder"); return nil },
+		"(*strings.Builder).String":              iBuilderString,
 		"(*sync.RWMutex).Lock":                   iLock,
 		"(*sync.RWMutex).Unlock":                 iUnlock,
 		"(*sync.RWMutex).RLock":                  iRLock,
@@ -90,6 +93,29 @@ func init() {
 		"(net/netip.Addr).IsValid":               iAddrMethod,
 		"(net/netip.Addr).Unmap":                 iAddrMethod,
 	}
+}
+
+// iBuilderString: (*strings.Builder).String() is unsafe.String over buf in the
+// real implementation: the accumulated bytes, without a copy.
+func iBuilderString(w *W, fn *ssa.Function, args []Value, pos token.Pos) Value {
+	w.use("strings.Builder")
+	p, ok := args[0].(Ptr)
+	if !ok || p.O == nil {
+		w.goPanic("nil pointer dereference (strings.Builder)", pos)
+	}
+	st, ok := w.load(p, pos).(Struct)
+	if !ok || len(st) < 2 {
+		unsupp("strings.Builder layout")
+	}
+	buf, ok := st[1].(Slice)
+	if !ok {
+		unsupp("strings.Builder.buf is not a slice")
+	}
+	bs := make([]*Term, buf.Len)
+	for i := range bs {
+		bs[i] = w.sliceGet(buf, i).(*Term)
+	}
+	return w.strFromBytes(bs)
 }
 
 func (w *W) use(note string) {
@@ -787,9 +813,13 @@ func (w *W) prim(fn *ssa.Function, args []Value, pos token.Pos) Value {
 		}
 		return ts.Bool(a.Off < b.Off+b.Cap && b.Off < a.Off+a.Cap)
 	case "zzSharesMutable":
-		return ts.Bool(w.sharesMutable(args[0], args[1]))
+		r := w.sharesMutable(args[0], args[1])
+		w.oracleHit = r
+		return ts.Bool(r)
 	case "zzReachesModuleState":
-		return ts.Bool(w.reachesModuleState(args[0]))
+		r := w.reachesModuleState(args[0])
+		w.oracleHit = r
+		return ts.Bool(r)
 	case "zzIsConcrete":
 		switch x := args[0].(type) {
 		case Str:
